@@ -21,6 +21,7 @@ Definition lts_single_ok (c : Stream.case) : bool :=
                         end) comp
   | Stream.Sched _ true _ p _ => negb p
   | Stream.GoChecked _ _ ok => ok
+  | Stream.Http c => HttpSched.oracle_case c
   end.
 
 Definition oracle_case (k : case) : bool :=
@@ -35,6 +36,7 @@ Definition oracle_case (k : case) : bool :=
           | OneStatus c => negb (c =? 0)
           end
       | Lts c => lts_single_ok c
+      | HLts c => HttpSched.oracle_case c
       | Checked _ _ ok => ok
       | _ => true
       end
